@@ -6,11 +6,28 @@ SOCK = "self._channel.stream.sock"
 
 
 def register(S):
-    S.contract(F + "_box", params={"self": "obj:Connection", "obj": "val"}, result="val", trusted=True,
-               note="ASSUMED (body not yet verified): returns a plain (label, payload) pair; registers lent objects in "
-                    "this connection's table only; raises nothing",
-               ensures={"result_is_plain": ("plain(result)", ["C08", "C01", "C03"])},
-               raises={}, modifies=["self._local_objects._dict"])
+    TABLE_OK = "all_slots_ok(self._local_objects._dict)"
+    S.contract(F + "_box", params={"self": "obj:Connection", "obj": "val"}, result="val",
+               ghost={"k": "val"},          # an arbitrary lent id: the count clause holds for every id
+               requires=[TABLE_OK],
+               ensures={"travels_as_the_statement_says": ("same(result, boxed(obj, self))", ["C03", "C01", "C10"]),
+                        "result_is_plain": ("plain(result)", ["C08", "C01", "C03"]),
+                        "one_box_per_occurrence": (
+                            "boxes(self._local_objects._dict, k) == old(boxes(self._local_objects._dict, k)) + occ(obj, self, k)",
+                            ["C10", "C03"]),
+                        "table_stays_well_formed": (TABLE_OK, ["C10", "C03", "C07"])},
+               raises={}, modifies=["self._local_objects._dict"],
+               calls={"_box": {"ghost": {"k": "k"}}},
+               loops={0: {"rest": "rest", "havoc": {"acc": "vl"}, "modifies": ["self._local_objects._dict"],
+                          "invariant": [
+                              "app(acc, boxed_list(rest, self)) == boxed_list(items(obj), self)",
+                              "plain_list(acc)",
+                              "boxes(self._local_objects._dict, k) + occ_list(rest, self, k) == "
+                              "old(boxes(self._local_objects._dict, k)) + occ_list(items(obj), self, k)",
+                              TABLE_OK],
+                          "body_events": ["n_callees('_box') == 1 and n_events() == 1"],
+                          "snoc_hints": ["app_snoc(acc, x, boxed_list(rest, self))", "plain_snoc(acc, x)"],
+                          "exit_hints": ["app_nil(acc)"]}})
     S.contract(F + "_box_exc", params={"self": "obj:Connection", "typ": "any", "val": "any", "tb": "any"}, result="val",
                trusted=True,
                note="ASSUMED (vinegar.dump not yet under contract): returns a plain value describing the exception",
@@ -19,5 +36,5 @@ def register(S):
                note="ASSUMED (body not yet verified): returns some value or raises anything; while creating a proxy it may "
                     "perform a nested request on this connection, which can end with the transport closed",
                ensures={}, raises={"BaseException": {
-                   "modifies": ["self._local_objects._dict", SOCK + ".outbuf", SOCK + ".inbuf"], "props": ["C08"]}},
-               modifies=["self._local_objects._dict", SOCK + ".outbuf", SOCK + ".inbuf"])
+                   "modifies": [SOCK + ".outbuf", SOCK + ".inbuf"], "props": ["C08"]}},
+               modifies=[SOCK + ".outbuf", SOCK + ".inbuf"])
